@@ -9,7 +9,7 @@ import z3
 
 from . import smt
 from .calls import CallMixin, VOpaqueArr, VOpaqueBuf, parse_spec
-from .contract import (Arr, Arr2, Bool, Const, Contract, Int, LoopSpec, Obj, Opaque, Opt, Raw, Real, RecArr, Str)
+from .contract import (Arr, Arr2, Bool, Chunks, Const, Contract, Int, LoopSpec, Obj, Opaque, Opt, Raw, Real, RecArr, Str)
 from .engine import Engine
 from .expr import ExprMixin
 from .source import ContractMismatch, OutOfSubset, _strip_doc
@@ -79,7 +79,9 @@ class SpecFn:
         prev = self.f(*raws[:-1], smt.som(n - 1))
         step = self.unfold(eng, st, raws)
         zero = z3.RealVal(0) if self.ret == REAL else z3.IntVal(0)
-        st.assume(t == z3.If(n <= 0, zero, prev + step))
+        if not getattr(eng, "no_unfold", False):
+            # the one-step definition instance: needed where the sum is built (kernels, lemmas), noise elsewhere
+            st.assume(t == z3.If(n <= 0, zero, prev + step))
         st.assume(self.f(*raws[:-1], z3.IntVal(0)) == zero)
         eng.assume_tag("SPEC:" + self.name)
         return VReal(t) if self.ret == REAL else VInt(t)
@@ -139,6 +141,7 @@ class Verifier(Engine, ExprMixin, StmtMixin, CallMixin):
         self._param_names_used = set()
         self.bv_u1 = getattr(c, "bv_u1", False)
         self.no_lemma_axioms = getattr(c, "no_lemma_axioms", False)
+        self.no_unfold = getattr(c, "no_unfold", False)
         st = State()
         # parameters
         a = fi.node.args
@@ -160,7 +163,7 @@ class Verifier(Engine, ExprMixin, StmtMixin, CallMixin):
             t = c.params.get(p)
             if p in case:
                 cv = case[p]
-                t2 = cv if isinstance(cv, (Int, Real, Arr, Arr2, Obj, Bool, Str, RecArr, Opaque, Raw)) else Const(cv)
+                t2 = cv if isinstance(cv, (Int, Real, Arr, Arr2, Obj, Bool, Str, RecArr, Opaque, Raw, Chunks)) else Const(cv)
                 v = self.mk_param(p, t2, st)
             else:
                 v = self.mk_param(p, t, st)
